@@ -20,6 +20,7 @@ CLAIMED = {
  "C11": dict(level="exploration", text="seeded histories over stream variables from every constructor with small parameters (both step signs, bounds beyond 2^63, empty bases, selection sizes 0..len+1, lazy map/filter, infinite recurrences), optionally dropped by a prefix and aliased, with a seed-chosen order of observations (len, index, slice, list, reverse, first/last, in, truthiness, unpacking, for, take/drop, map, set, passing to a function) interleaved with alias creation and destruction and failing lazy callbacks; every result compared with an immutable-lazy-list model and every stream variable re-materialised after every statement", ref="DESIGN.md section 5 (C11)", technique="deterministic simulation: seeded observation histories over shared/unshared stream cursors with failing-callback injection, refinement against an immutable lazy-list model"),
  "C12": dict(level="exploration", text="stateful clauses: seeded histories over variables declared with annotations of every builtin type, a struct type and `satisfying` types (one over container contents, so the late check of indexed assignments fires), touched by every assignment form (plain, indexed/field, operator-, every-, swap, destructuring with splats/defaults/brackets, annotated pairs, closure setters) with well- and ill-typed right-hand sides; switch with overlapping arms over literal, annotated, sequence, splat, struct, or/and and constructor-inverting patterns; patterns in lambda parameters, for clauses and catch; `x is T` asked in the session; everything compared with the reference model after every statement. The full pattern x value matrix is a pure function and is only sampled", ref="DESIGN.md section 5 (C12)", technique=TECH),
  "C14": dict(level="fault_enumeration", text="every global builtin found in the live Env x every tuple of 0..2 arguments from a 60-value pool (thorough: the whole grid; quick: arity 0/1 completely plus seeded samples of arity 2/3), half of the calls inside try/catch, pool values held in session variables, liveness probe in the same session; plus the other profiles' generated histories with ill-formed statements; oracle: value or catchable error, never a panic, untouched variables keep their values", ref="DESIGN.md section 5 (C14)", technique="deterministic simulation: fault enumeration over builtin x argument grid inside persistent sessions, crash capture (catch_unwind), recovery invariant checked after every fault"),
+ "C17": dict(level="exploration", text="seeded sessions that define, for generated closed lambdas over the control-flow vocabulary (loops, switch, try, nested lambdas with defaults, operator chains, local declarations), a plain twin L and F := freeze L, then interleave calls of both twins on the same arguments with reassignments of the outer variables they mention (values, list, helper function, user operator, `swap +, *` which also moves precedences); value, output and raised/not-raised of every call compared with a reference model in which freeze = snapshot of the free variables by the evaluator's own scope rules; negative cases (unbound free variable, assignment to an outer variable) must fail at freeze time", ref="DESIGN.md section 5 (C17)", technique="deterministic simulation: seeded schedules of reassignments vs calls of frozen/unfrozen twins with output fault injection, refinement against an executable reference model"),
 }
 PENDING = ["C02","C05","C09","C11","C12","C17"]
 import sys
